@@ -296,7 +296,15 @@ type report struct {
 // design-level finding); "other" for everything else.
 func (r report) form() string {
 	a, b := r.A.has(c18skel.AttachFns), r.B.has(c18skel.AttachFns)
-	if a != b && len(r.A.Frames) > 0 && len(r.B.Frames) > 0 {
+	if a == b || len(r.A.Frames) == 0 || len(r.B.Frames) == 0 {
+		return "other"
+	}
+	cons := r.A
+	if a {
+		cons = r.B
+	}
+	// consumers read; the one thing they write is the tx hash memo in eth.Tx.Hash
+	if strings.Contains(cons.Op, "read") || cons.has([]string{"eth.(*Tx).Hash"}) {
 		return "consumer-vs-attach"
 	}
 	return "other"
